@@ -14,8 +14,8 @@ import vlib
 ASSUME = [
     "real event_reader.cc, bb_utils.cc, bxdecay0_clparser.cpp under ministl; libstdc++'s own parsing is replaced by the stream model (harness/e3/adv_stream.h, c11_reader.cpp -DADVERSARIAL)",
     "bounds: event files: 1 file x <= 1 record with 2 reader calls, 2 files x <= 1 record with 1 call, every extraction adversarial (ok with arbitrary value / parse failure / premature end); catalogue files <= 2 lines x <= 2 (quick) / 3 characters; command line <= 2 (quick) / 3 tokens from a 28-word vocabulary",
-    "a path that exhausts the instruction budget (3e6 instructions on these tiny inputs; 3e7 for the gA tables; the rejection sampler behind the pdf loader is followed for 3 rounds) is reported as a hang",
-    "gA tables (dbd_gA.cc, both loaders + the samplers on whatever they accept): token-level file model (harness/e3/c14_gA.cpp PART=6/7); esum, e_min, e_max, step arbitrary reals, sample count from {0, 1, 2, 3, 4000000000, -1}, cdf loader: <= 2 lines x <= 2 tokens out of {'^0', '^400', '!1', number of any value, junk word} and <= 3 lines x <= 2 tokens out of {'!1', number of any value} (the smallest tables the loader accepts, so that the sampler runs on them); pdf loader: <= 3 (quick 2) rows x <= 3 (quick 2) words (number of any value or junk); GSL's interpolation object is a stub that touches the first and last table element it would read",
+    "a path that exhausts the instruction budget (3e6 instructions on these tiny inputs; 3e7 for the gA tables; the pdf-loader module ends after GSL's interpolation-grid precondition, the rejection sampler itself runs in C14 on the shipped table) is reported as a hang",
+    "gA tables (dbd_gA.cc, both loaders + the samplers on whatever they accept): token-level file model (harness/e3/c14_gA.cpp PART=6/7); esum, e_min, e_max, step arbitrary reals, sample count from {0, 1, 2, 3, 4000000000, -1}, cdf loader: <= 2 lines x <= 2 tokens out of {'^0', '^400', '!1', number of any value, junk word} and <= 3 lines x <= 2 tokens out of {'!1', number of any value} (the smallest tables the loader accepts, so that the sampler runs on them); pdf loader: <= 3 (quick 2) rows x <= 3 (quick 2) words (number of any value or junk); GSL's interpolation object is a stub that checks GSL's documented preconditions (at least 2 x 2 nodes, strictly increasing grids) and touches the first and last table element it would read",
 ]
 
 
@@ -39,15 +39,16 @@ def run(tier, seed):
     jobs.append(("gA_cdf_adv", vlib.E3H + "/c14_gA.cpp", ga, ["PART=6", "NL=2", "NT=2"]))                 # all token kinds, loader robustness
     jobs.append(("gA_cdf_adv_sampler", vlib.E3H + "/c14_gA.cpp", ga, ["PART=6", "NL=3", "NT=2", "FEWKINDS"]))  # '!1' / arbitrary numbers: accepted tables reach the sampler
     jobs.append(("gA_pdf_adv", vlib.E3H + "/c14_gA.cpp", ga, ["PART=7"] + (["NL=2", "NT=2"] if tier == "quick" else ["NL=3", "NT=3"])))
+    jobs.append(("witness_gA_pdf", vlib.E3H + "/c14_gA.cpp", ga, ["PART=7", "NL=2", "NT=2", "WITNESS"]))   # some table within the bound is accepted
     jobs.append(("witness_gA", vlib.E3H + "/c14_gA.cpp", ga, ["PART=6", "NL=3", "NT=2", "FEWKINDS", "WITNESS"]))
     jobs.append(("witness", vlib.E3H + "/c15_lists.cpp", bu, ["WHICH=0", "ADV_NL=1", "ADV_LL=1", "WITNESS"]))
     mods = vlib.parallel(jobs, lambda j: vlib.irx_link(wd, j[0], j[2], j[1], j[3]))
     exe = vlib.irx_exe()
-    # the rejection sampler behind the pdf loader loops on a symbolic acceptance test: 3 rounds; everything else K=400
-    cmds = [[exe, m, "--entry", "harness", "--K", "3" if j[0] == "gA_pdf_adv" else "400", "--max-insts", "30000000" if j[0].startswith("gA") or j[0] == "witness_gA" else "3000000", "--max-paths", "600000"] for m, j in zip(mods, jobs)]
+    # the pdf-loader module stops after the loader and GSL's grid precondition (K=8 covers its line loop; the rejection sampler is C14's); everything else K=400
+    cmds = [[exe, m, "--entry", "harness", "--K", "8" if j[0] in ("gA_pdf_adv", "witness_gA_pdf") else "400", "--max-insts", "30000000" if "gA" in j[0] else "3000000", "--max-paths", "600000"] for m, j in zip(mods, jobs)]
     res = vlib.run_jsonl(cmds, timeout=900 if tier == "quick" else 3000)
-    wits, res = res[-2:], res[:-2]
-    keys = [j[0] for j in jobs[:-2]]
+    wits, res = res[-3:], res[:-3]
+    keys = [j[0] for j in jobs[:-3]]
     agg = vlib.irx_aggregate(res)
     witness_ok = all(any(x.get("type") == "assert_fail" and "WITNESS" in x.get("what", "") for x in w["records"]) for w in wits)
     samples, n = irx_common.collect("C15", wd, rep, keys, res)
